@@ -123,6 +123,27 @@ pub const NUMERIC_SWEEPS: [&str; 16] = [
     "\\e[4:#m",
 ];
 
+/// For the sweeps whose decoded event carries the swept number: (family, pattern with every number a field,
+/// the fixed fields; `#` marks the swept one). Indexed like NUMERIC_SWEEPS.
+const SWEEP_FIELDS: [Option<(&str, &str, &[&str])>; 16] = [
+    Some(("kitty-key", "\\e[#u", &["#"])),
+    Some(("kitty-key", "\\e[#;#u", &["#", "5"])),
+    None,
+    None,
+    None,
+    Some(("kitty-level", "\\e[?#u", &["#"])),
+    None,
+    None,
+    Some(("decmode", "\\e[?#;#$y", &["#", "1"])),
+    Some(("decmode", "\\e[?#;#$y", &["25", "#"])),
+    Some(("decmode", "\\e[?#;#$y", &["2026", "#"])),
+    Some(("mouse", "\\e[<#;#;#M", &["#", "10", "5"])),
+    Some(("mouse", "\\e[<#;#;#m", &["#", "10", "5"])),
+    None,
+    None,
+    None,
+];
+
 pub fn templates() -> Vec<Template> {
     vec![
         tpl("cursor", "\\e[#;#R"),
@@ -211,6 +232,25 @@ pub fn fixed_tokens() -> Vec<Vec<u8>> {
                     t.extend_from_slice(c2);
                     t.push(b'/');
                     t.extend_from_slice(c3);
+                    t.push(0x07);
+                    v.push(t);
+                }
+            }
+        }
+    }
+    // OSC colour replies whose VALUE is not of the expected shape at all: every short ASCII lead (with and
+    // without the expected prefixes), then a multi-byte character or a stray continuation byte, then a tail -
+    // so that a character straddles every small byte offset a parser might cut at
+    for name in [&b"10"[..], b"4;1"] {
+        for lead in ["", "r", "rg", "rgb", "rgb:", "RGB:", "#", "#1", "#12", "#123", "#1234", "#12345", "abc", "abcd", "abcde", "rgb:1/2/"] {
+            for ch in ["\u{e9}".as_bytes(), "\u{20ac}".as_bytes(), "\u{1f600}".as_bytes(), b"\x80"] {
+                for tail in ["", "/0/0", "00"] {
+                    let mut t = b"\x1b]".to_vec();
+                    t.extend_from_slice(name);
+                    t.push(b';');
+                    t.extend_from_slice(lead.as_bytes());
+                    t.extend_from_slice(ch);
+                    t.extend_from_slice(tail.as_bytes());
                     t.push(0x07);
                     v.push(t);
                 }
@@ -712,6 +752,23 @@ pub fn worker(ctx: &Ctx, mut wc: WorkerCtx, _extra: &[String]) {
                         for which in [Which::Event, Which::Command] {
                             check_and_report(&mut wc, &mut local, which, &s, &[vec![s.len()]], "light", false);
                         }
+                        // the swept number as a decoded field
+                        if let Some((family, generic, fixed)) = SWEEP_FIELDS[ti] {
+                            let vs = v.to_string();
+                            let fields: Vec<&str> = fixed.iter().map(|f| if *f == "#" { vs.as_str() } else { *f }).collect();
+                            let tp = tpl(family, generic);
+                            debug_assert_eq!(render(&tp, &fields), s);
+                            if let Ok(run) = catch(|| run_parts(Which::Event, &s, &[s.len()])) {
+                                if let Some(problem) = field_problem(&tp, &fields, run.items.first()) {
+                                    local.add(
+                                        &mut wc,
+                                        format!("event:numeric-field:{}", family),
+                                        format!("{} (input {:?})", problem, esc(&s)),
+                                        json!({"kind": "sweep-field", "sweep": ti, "value": v, "w_esc": esc(&s)}),
+                                    );
+                                }
+                            }
+                        }
                     }
                     wc.count("N_values", n);
                 }
@@ -920,6 +977,18 @@ pub fn replay(w: &Value) -> Result<(bool, String), String> {
                 }
             }
             Ok((bad, detail))
+        }
+        Some("sweep-field") => {
+            let ti = w["sweep"].as_u64().ok_or("sweep")? as usize;
+            let v = w["value"].as_u64().ok_or("value")?;
+            let (family, generic, fixed) = SWEEP_FIELDS.get(ti).copied().flatten().ok_or("sweep index")?;
+            let vs = v.to_string();
+            let fields: Vec<&str> = fixed.iter().map(|f| if *f == "#" { vs.as_str() } else { *f }).collect();
+            let tp = tpl(family, generic);
+            let s = render(&tp, &fields);
+            let run = catch(|| run_parts(Which::Event, &s, &[s.len()])).map_err(|p| format!("panic: {}", p.message))?;
+            let problem = field_problem(&tp, &fields, run.items.first());
+            Ok((problem.is_some(), format!("input {:?} decoded {:?}: {:?}", esc(&s), run.items, problem)))
         }
         Some("string") => {
             let which = Which::from_name(w["which"].as_str().unwrap_or("")).ok_or("which")?;
